@@ -40,3 +40,43 @@ package netconf
 //@ func (*Driver).SessionID [C09]
 //@   pure
 //@   ensures result == d.sessionID
+
+// ---- C08: message ids and the reply store --------------------------------------------------------------
+
+//@ func (*Driver).buildPayload [C08 C03]
+//@   modifies d.messageID, alloc()
+//@   ensures #id-is-current fresh(result) && result.MessageID == old(d.messageID)
+//@   ensures #id-advances d.messageID == old(d.messageID) + 1
+//@   ensures #carries-payload result.Payload == payload && result.Namespace == "urn:ietf:params:xml:ns:netconf:base:1.0"
+
+// the store as a map view: postconditions are over the whole map, so corrupting another key fails
+//@ func (*Driver).storeMessage [C08]
+//@   requires d.messages != nil
+//@   modifies keys(d.messages)
+//@   ensures #stores has(d.messages, i) && get(d.messages, i) == b
+//@   ensures #other-keys-untouched forall k int :: k != i ==> (has(d.messages, k) <==> old(has(d.messages, k))) && get(d.messages, k) == old(get(d.messages, k))
+
+//@ func (*Driver).getMessage [C08]
+//@   modifies keys(d.messages)
+//@   ensures #returns-own-entry result == (old(has(d.messages, i)) ? old(get(d.messages, i)) : "")
+//@   ensures #removes-it !has(d.messages, i)
+//@   ensures #other-keys-untouched forall k int :: k != i ==> (has(d.messages, k) <==> old(has(d.messages, k))) && get(d.messages, k) == old(get(d.messages, k))
+
+//@ func getID [C08]
+//@   pure
+//@   ensures #no-match len(match) != 2 ==> result == 0
+//@   ensures #parsed len(match) == 2 ==> result == (atoiOK(match[1]) ? atoiVal(match[1]) : 0)
+
+// ---- C03: framing ----------------------------------------------------------------------------------------
+
+//@ func ForceSelfClosingTags
+//@   noverify
+//@   pure
+
+//@ func (*message).serialize [C03]
+//@   modifies alloc()
+//@   ensures #fresh result.1 == nil ==> fresh(result.0)
+//@   ensures #nil-on-error result.1 != nil ==> result.0 == nil
+//@   ensures #framing-1.0 result.1 == nil && v == "1.0" ==> result.0.framedXML === result.0.rawXML ++ "]]>]]>"
+//@   ensures #framing-1.1 result.1 == nil && v == "1.1" ==> result.0.framedXML === "#" ++ decimal(len(result.0.rawXML)) ++ "\n" ++ result.0.rawXML ++ "\n##"
+//@   ensures #unknown-version-unframed result.1 == nil && v != "1.0" && v != "1.1" ==> result.0.framedXML === result.0.rawXML
